@@ -64,7 +64,7 @@ def run(pid, tier):
     if pid == 'C01':
         o.assumptions = [
             'ziggurat part (StandardNormal, Exp1): tables against the structural equations (ZigTables.tla) and executions against the ZIGNOR automaton (TraceZig.tla: layer, sign, word count, result region, tail sign), exactly as for C06',
-            'inverse-CDF samplers (Cauchy, Pareto, Weibull, Gumbel, Frechet, Triangular): the LAW is decided at the anchors of spec/QuantileTable.tla (42 dyadic parameter points x 9 probabilities '
+            'inverse-CDF samplers (Cauchy, Pareto, Weibull, Gumbel, Frechet, Triangular): the LAW is decided at the anchors of spec/QuantileTable.tla (48 dyadic parameter points x 9 probabilities '
             '2^-20 .. 1-2^-20 x f32/f64) as an exact ticket count against the documented CDF bracketed at x(1 -/+ 2^-20), resolution two steps of the uniform draw; the table itself is mpmath output '
             '(tools/gen_quantile_table.py, 60 digits) whose order/median sanity TLC checks; f64 counts rest on monotonicity inside each half of the word range, checked on ~150 sorted words per half',
             'Beta<f32> (Cheng BB and BC, both parameter orders, both sides of min(a,b) = 1): the LAW is decided as an exact ticket count over the 2^24 x 2^24 lattice of proposal and acceptance word '
